@@ -8,6 +8,8 @@ def run(F, G, tier, seed):
     features.run(chk, F, G)
     descend.run(chk, F, ["uses_fp", "uses_hybrid"], [])
     features.run_valuekind(chk, F)
+    from ..rules import symmetry
+    symmetry.run_decomp(chk, F)      # has_stop_watch / has_strict_invariants come from what decompose visits
     return chk.finish(
         "Decides completeness of the feature detectors over the expression forms the type checker admits in guards, "
         "invariants and updates (kinds taken from C10's decision table and the grammar's write kinds), and the "
